@@ -30,7 +30,7 @@ for patch in sorted(glob.glob(base + '/*/*/patch.diff')):
     res[f'{pid}/{x}'] = entry
     bad = {k: v for k, v in entry.items() if isinstance(v, dict) and v['exit'] != 0}
     print(pid, x, 'props', ','.join(props), 'ALARM ' + json.dumps(bad)[:700] if bad or 'error' in entry else 'silent', flush=True)
-out = base + '/results.json'
+out = os.environ.get('PRES_OUT', base + '/results.json')
 old = json.load(open(out)) if os.path.exists(out) else {}
 old.update(res)
 json.dump(old, open(out, 'w'), indent=1, sort_keys=True)
